@@ -204,6 +204,18 @@ def execOp (line : String) : String :=
     | "rt" => withPkts rtLine
     | "reenc" => withHex reencLine
     | "relay" => withHex relayLine
+    | "dst2" => match args with
+        | [ha, hb] => match unhex ha, unhex hb, kindOfName kind with
+          | some a, some b, some k =>
+            match decKind k a with
+            | .ok p1 => match decKind k b with
+              | .ok p2 => dstLine p1.dest ++ " ; " ++ dstLine p2.dest
+              | .err => dstLine p1.dest ++ " ; err"
+              | _ => "panic"
+            | .err => "err"
+            | _ => "panic"
+          | _, _, _ => bad
+        | _ => "bad-op dst2"
     | "plist2" => match args.map String.toNat? with
         | [some id, some bm, some _] =>
           let l := NackPair.packetList { packetID := id, lost := bm }
